@@ -118,6 +118,14 @@ Theorem C07_params : forall u2g g2u gdom, codec_ok u2g g2u gdom ->
   params_parse g2u count (params_encode u2g p) = Ok p.
 Proof. exact params_roundtrip. Qed.
 Print Assumptions C07_params.
+(* the domain of C07_params leaves out the three declared fields parseParam has no case for (0x018 0x019 0x021):
+   recorded finding C07/params-caseless-field (0x021 is pinned by a golden test) - the field is written by encode
+   and comes back as unknown content *)
+Theorem C07_refuted_params_caseless :
+  params_encode (fun s => s) caseless_witness = [0; 0; 0; 33; 4; 0; 0; 0; 1] /\
+  params_parse (fun s => s) 1 (params_encode (fun s => s) caseless_witness) <> Ok caseless_witness.
+Proof. exact params_caseless. Qed.
+Print Assumptions C07_refuted_params_caseless.
 Theorem C07_8103_roundtrip : forall u2g g2u gdom, codec_ok u2g g2u gdom -> roundtrip (m_8103 u2g g2u gdom).
 Proof. exact (fun u2g g2u gdom Hc => law_of_ok _ (m_8103_ok u2g g2u gdom Hc)). Qed.
 Print Assumptions C07_8103_roundtrip.
